@@ -59,6 +59,8 @@ class DiskImageContentExtractor(DiskImageWorker):
                 extractedFileName = (
                     file["name"].rstrip() + "." + file["extension"].rstrip()
                 )
+                if "/" in extractedFileName or "\0" in extractedFileName:
+                    raise ValueError(f"invalid.file.name:{extractedFileName}")
                 data = controller.readFile(entry)
                 with open(os.path.join(sidePath, extractedFileName), "wb") as outf:
                     outf.write(data)
